@@ -213,6 +213,9 @@ def resolveFeatureDoc (W : World) (fgs : List FG) : DocOutcome :=
     | [c] => .one c.id
     | l => .multiple (l.map (·.id))
 
+/-- universe of the negation witnesses: two frameworks 0,1 (both loaded and available); class 1 derives from class 0 -/
+def witnessWorld : World := { parent := fun c => if c = 1 then some 0 else none, allCfw := [0, 1], available := fun _ => true }
+
 /-! ## The property's own wording (`Spec`) -/
 
 namespace Spec
